@@ -35,7 +35,7 @@ def _dg(v, depth=0):
     try:
         from mindsdb_sql.parser.ast.base import ASTNode
         if isinstance(v, ASTNode):
-            return 'AST(%s|%s|%s)' % (v.to_tree(), _dg(getattr(v, 'alias', None), depth + 1), getattr(v, 'parentheses', None))
+            return 'AST(%s|%s|%s|%s)' % (v.to_tree(), _dg(getattr(v, 'alias', None), depth + 1), getattr(v, 'parentheses', None), _node_attrs(v))
     except Exception:
         pass
     d = getattr(v, '__dict__', None)
@@ -45,6 +45,41 @@ def _dg(v, depth=0):
         return '%s#%d' % (type(v).__name__, len(v))
     except Exception:
         return type(v).__name__
+
+
+def _node_attrs(root, limit=600):
+    """Everything a statement tree carries besides what to_tree() shows: for every node reachable from `root`, its attributes that
+    are neither nodes nor lists (scalars as they are; any other object by its own scalar attributes, one level).  A memo, a
+    flag or a holder object that some code hangs on a node of a shared tree shows here."""
+    from mindsdb_sql.parser.ast.base import ASTNode
+    out, stack, seen = [], [root], set()
+    while stack and len(out) < limit:
+        x = stack.pop()
+        if id(x) in seen:
+            continue
+        seen.add(id(x))
+        if isinstance(x, (list, tuple)):
+            stack.extend(x)
+            continue
+        if isinstance(x, dict):
+            stack.extend(x.values())
+            continue
+        if not isinstance(x, ASTNode):
+            continue
+        row = [type(x).__name__]
+        for k, val in sorted(vars(x).items()):
+            if isinstance(val, (ASTNode, list, tuple, dict)):
+                stack.append(val)
+                if isinstance(val, (list, tuple)):
+                    row.append('%s#%d' % (k, len(val)))
+            elif isinstance(val, SIMPLE):
+                row.append('%s=%r' % (k, val if not isinstance(val, str) else val[:40]))
+            else:
+                d = getattr(val, '__dict__', None)
+                row.append('%s:%s<%s>' % (k, type(val).__name__, ','.join('%s=%r' % (a, (b if isinstance(b, SIMPLE) else (type(b).__name__, len(b) if hasattr(b, '__len__') else 0)))
+                                                                         for a, b in sorted(d.items())) if isinstance(d, dict) else ''))
+        out.append('/'.join(str(r)[:80] for r in row))
+    return ';'.join(out)
 
 
 def _is_data(v):
@@ -149,7 +184,7 @@ def fingerprint_light(rootlist):
     for path, get in rootlist:
         try:
             # a shared statement tree is small and its edits are deep inside (a column of a CREATE TABLE): full digest
-            out.append(_dg(get()) if path.startswith('tree[') else light(get()))
+            out.append(_dg(get()) if path.startswith(('tree[', 'tpl[')) else light(get()))
         except Exception as e:  # noqa
             out.append('ERR')
     return out
